@@ -196,18 +196,29 @@ func (c *Ctx) checkErrorPropagation(rule string, fn *ssa.Function, pick func(*ss
 			es := nilEdges(fn, errv, true)
 			key := c.FK(fn) + "|" + ir.CallName(call)
 			if len(es) == 0 {
-				// the error is never tested: it must then be returned directly on every path, or it is dropped
-				used := false
-				if refs := errv.Referrers(); refs != nil {
-					for _, r := range *refs {
-						switch r.(type) {
-						case *ssa.Return, *ssa.Store, *ssa.Phi:
-							used = true
-						}
+				// the error is never tested: every return reachable from the call must then
+				// carry this very value (or a definitely non-nil error), unless the path
+				// established it nil - otherwise a later assignment silently drops it
+				lost := ""
+				rets := returnsFrom([]ir.Point{ir.After(call)}, ir.Search{})
+				for _, rv := range rets {
+					v := ir.ResultVia(rv.ret, ei, rv.via)
+					if ir.Resolve(v) == ir.Resolve(errv) {
+						continue
 					}
+					facts := factsAt(rv.ret.Block(), rv.via)
+					if !mayBeNilError(rv.ret.Results[ei], facts) || !mayBeNilError(v, facts) {
+						continue
+					}
+					if ir.HasFact(facts, token.EQL, func(x, y ssa.Value) bool { return x == ir.Resolve(errv) && ir.IsNilConst(y) }) {
+						continue
+					}
+					lost = c.P.Pos(rv.ret.Pos())
 				}
-				if used {
-					c.R.Ok(rule, key, c.FK(fn), c.P.Pos(call.Pos()), "error of "+ir.CallName(call)+" is passed on untested (returned/stored)")
+				if lost != "" {
+					c.R.Bad(rule, key, c.FK(fn), c.P.Pos(call.Pos()), "the error result of "+ir.CallName(call)+" is never tested and can be overwritten before the return at "+lost+": a failure is silently dropped")
+				} else if len(rets) > 0 {
+					c.R.Ok(rule, key, c.FK(fn), c.P.Pos(call.Pos()), "error of "+ir.CallName(call)+" is untested but reaches every return that could otherwise be nil")
 				} else {
 					c.R.Bad(rule, key, c.FK(fn), c.P.Pos(call.Pos()), "error result of "+ir.CallName(call)+" is neither tested nor returned: a failure is turned into a value")
 				}
